@@ -1,0 +1,15 @@
+// SPDX-FileCopyrightText: 2026 The Pion community <https://pion.ly>
+// SPDX-License-Identifier: MIT
+
+//go:build verif
+
+package gcc
+
+import "github.com/pion/interceptor/internal/cc"
+
+// VerifFeedbackAdapter returns the feedback adapter into which the stream writers of this
+// estimator record every packet the pacer releases (verification harness only: the harness
+// reads acknowledgements from it; it never records through it).
+func (e *SendSideBWE) VerifFeedbackAdapter() *cc.FeedbackAdapter {
+	return e.feedbackAdapter
+}
